@@ -50,6 +50,8 @@ def fits_somewhere(mode, nbytes, kw, fn):
         if use not in R.levels_of(v):
             continue
         b = segment_bits(v, mode, nbytes)
+        if b is not None and kw.get('eci') and mode == 'byte':
+            b += 12  # an ECI header may precede the segment (judged conservatively: a refusal is wrong only if the segment fits with it)
         if b is not None and b <= R.data_capacity_bits(v, use):
             return True
     return False
@@ -77,7 +79,9 @@ def check_case(case):
         devs = []
         # (with eci=True and an explicit encoding the refusal may be "no ECI assignment number known for
         # this encoding", which the documentation allows)
-        if parts is not None and len(parts) == 1 and req_mode != 'INVALID' and not (kw.get('eci') and kw.get('encoding')):
+        # (a mask 4..7 is refused when the automatically chosen version is a Micro QR symbol - not a question of the mode)
+        if parts is not None and len(parts) == 1 and req_mode != 'INVALID' and not (kw.get('eci') and kw.get('encoding')) \
+                and kw.get('mask') in (None, 0, 1, 2, 3, '0', '1', '2', '3'):
             b = parts[0][0]
             mode = req_mode or auto_mode(b)
             if b and representable(mode, b) and fits_somewhere(mode, len(b), kw, fn):
@@ -222,6 +226,16 @@ def required_labels(tier):
             'mode-req-kanji', 'refused', 'M1', 'M2', 'M3', 'M4']
 
 
+def _fuzz(tier):
+    """Coverage-guided phase (atheris), thorough tier (or VERIF_FUZZ_RUNS=<n> in any tier)."""
+    import os
+    runs = int(os.environ.get('VERIF_FUZZ_RUNS', '0' if tier == 'quick' else '320000'))
+    if not runs:
+        return []
+    from .. import fuzz
+    return [fuzz.fuzz_phase(__name__, runs)]
+
+
 def phases(tier, seed):
     n = 25600 if tier == 'quick' else 600000
     return [
@@ -232,4 +246,4 @@ def phases(tier, seed):
         Enum('length-3-4-representative-bytes', lambda: longer_scope(tier), exhaustive=True,
              note='all contents of length 3 and 4 over representative byte values (both sides of every class boundary)'),
         Search('texts', st.one_of(text_cases(), text_cases(), gens.lookalike_case()), n),
-    ]
+    ] + _fuzz(tier)
